@@ -4,6 +4,7 @@
 -/
 import StVerif.Lemmas.Codec
 import StVerif.Lemmas.CodecDecode
+import StVerif.Lemmas.KernelBridge
 
 namespace StVerif.Props.C14
 open StVerif StVerif.Codec StVerif.Lemmas.Codec
@@ -139,5 +140,13 @@ theorem tables_inverse :
 example : Bytes [0, 255, 16, 127, 128] := by decide
 example : b64Encode [77, 97, 110, 255, 0] = [84, 87, 70, 117, 47, 119, 65, 61] := by decide
 example : hexEncode [0, 255, 16] = [48, 48, 102, 102, 49, 48] := by decide
+
+/-! ### tie to the source (tools/gen_kernels.py) -/
+
+/-- `b64_encode_size` as translated from include/st_codecs_priv.h on every run is the model's size function for every
+    input length below 2^62 (beyond that the C++ multiplication wraps; such buffers cannot exist) -/
+theorem encode_size_is_model (n : Nat) (h : n < 2 ^ 62) :
+    StVerif.Generated.Kernels.b64_encode_size n = .ok (StVerif.Codec.b64EncodeSize n) :=
+  KernelBridge.b64_encode_size_eq n h
 
 end StVerif.Props.C14
